@@ -55,15 +55,19 @@ type params struct {
 	maxKills    int
 	thorough    bool
 	slowStorage bool // focused part: queued snapshot writes, one worker, deeper deviation bound
+	tables      bool // memtables of a few entries: the operators' checkpoints consist of table files, restores load tables
 }
 
 func Run(k *report.Check) {
-	k.Rule = "cluster simulation: a real Job, W real operators and source runners (W in {1,2}), a harness source of 1-2 splits with 5-6 records over keys that collide and spread across operators, key-group count 4, read size 1-2, batch size 1-2 with 10 ms time-out; components run with the default schedule, the explorer branches at network and environment events: the next queued RPC to deliver (default oldest first, any of the next three costs one deviation), the checkpoint tick positions (enumerated), a focused part (one worker) queues the job's snapshot file writes like remote calls - by default they complete only when no call is queued - and explores one more deviation; and the kill of any live worker at any network event (one deviation; a fresh worker registers, the survivor heartbeats, the job redeploys from its latest completed checkpoint). Oracle in the handler on every ProcessEventBatch: a record is never in the supplied state of its key already, every earlier record of the same split and key is; keys only reach their owning operator; at the end (input consumed, final checkpoint) the keyed state read back from the operators' DKV checkpoints with fresh databases equals the failure-free fold of the whole input. non-trivial = distinct (scenario, kill point, delivery order) executions with a kill, and of those the ones whose restore loaded non-empty state"
+	k.Rule = "cluster simulation: a real Job, W real operators and source runners (W in {1,2}), a harness source of 1-2 splits with 5-6 records over keys that collide and spread across operators, key-group count 4, read size 1-2, batch size 1-2 with 10 ms time-out; components run with the default schedule, the explorer branches at network and environment events: the next queued RPC to deliver (default oldest first, any of the next three costs one deviation), the checkpoint tick positions (enumerated), a part repeats the runs with memtables of 40 / 120 bytes (checkpoints made of table files, compaction at two level-0 tables); a focused part (one worker) queues the job's snapshot file writes like remote calls - by default they complete only when no call is queued - and explores one more deviation; and the kill of any live worker at any network event (one deviation; a fresh worker registers, the survivor heartbeats, the job redeploys from its latest completed checkpoint). Oracle in the handler on every ProcessEventBatch: a record is never in the supplied state of its key already, every earlier record of the same split and key is; keys only reach their owning operator; at the end (input consumed, final checkpoint) the keyed state read back from the operators' DKV checkpoints with fresh databases equals the failure-free fold of the whole input. non-trivial = distinct (scenario, kill point, delivery order) executions with a kill, and of those the ones whose restore loaded non-empty state"
 	k.Assumptions = []string{"interleavings inside a component are the component checks' subject (C02, C04, C07, C08, C13, C20): here only network-level orders and failure points are explored", "a killed worker's calls fail from the kill on; storage is shared and survives"}
 	k.Budget(150, 1500)
-	k.Parts(2)
+	k.Parts(3)
 	bound := k.Pick(1, 2)
 	k.ExploreSched(fmt.Sprintf("cluster/slow-snapshot-storage,deviations<=%d", bound+1), mc.Config{Bound: bound + 1, RecycleAfter: 1500, Deadline: k.Within(0.4)}, params{maxKills: 1, thorough: k.Thorough(), slowStorage: true}, body)
+	// the same with memtables of a few entries: state reaches table files and is compacted, so that a
+	// recovery (also into another operator count's ranges) restores from tables, not only from the WAL
+	k.ExploreSched(fmt.Sprintf("cluster/tiny-memtables,deviations<=%d", bound), mc.Config{Bound: bound, RecycleAfter: 1500, Deadline: k.Within(0.35)}, params{maxKills: bound, thorough: k.Thorough(), tables: true}, body)
 	k.ExploreSched(fmt.Sprintf("cluster/deviations<=%d", bound), mc.Config{Bound: bound, RecycleAfter: 1500}, params{maxKills: bound, thorough: k.Thorough()}, body)
 }
 
@@ -71,7 +75,15 @@ func body(c *mc.Ctx) {
 	p := c.Param.(params)
 	sc := scenarios[c.Choose(len(scenarios))]
 	cfg := &cluster.Config{KeyGroups: keyGroups, Splits: sc.splits, SplitOrder: sc.order, MaxEvents: 400}
-	if p.slowStorage {
+	if p.tables {
+		shim.SetGlobalTune("MemTableSize", uint64([]int{40, 120}[c.Choose(2)]))
+		shim.SetGlobalTune("L0Trigger", 2)
+		defer shim.ClearGlobalTune()
+		cfg.Workers = 1 + c.Choose(2)
+		cfg.ReadSize = 1
+		cfg.Batching = batching.EventBatcherParams{MaxSize: 1 + c.Choose(2), MaxDelay: 10 * time.Millisecond}
+		cfg.TickAfter = [][]int{{1, 4}, {2}}[c.Choose(2)]
+	} else if p.slowStorage {
 		cfg.Workers, cfg.ReadSize = 1, 1
 		cfg.Batching = batching.EventBatcherParams{MaxSize: 1, MaxDelay: 10 * time.Millisecond}
 		cfg.TickAfter = [][]int{{1}, {1, 4}}[c.Choose(2)]
